@@ -80,7 +80,7 @@ func (e *ApplicationException) FastRead(b []byte) (off int, err error) {
 		case id == 2 && tp == I32: // TypeID
 			e.t, l, err = Binary.ReadI32(b[off:])
 		default:
-			l, err = Binary.Skip(b, tp)
+			l, err = Binary.Skip(b[off:], tp)
 		}
 		if err != nil {
 			return off, err
